@@ -189,7 +189,7 @@ PROPS = {
              dict(module='ScannerGen', tag='sim', cfg='ScannerGen.sim.cfg', sim={'quick': (300, 43), 'thorough': (5000, 43)})],
         corrupt=[('obs.col+1', _bump('obs.col')), ('obs.pline+1', _bump('obs.pline')), ('ret+1', _bump('ret'))],
         exhaustive_part=True,
-        assumptions=['guarded hook StringScanner.VerifCursor returns position+1 (io/verif_hooks.go)'],
+        assumptions=['guarded hook StringScanner.VerifCursor returns position+1 (io/verif_hooks.go)', 'guarded hook StringScanner.verifEvent logs each call after its state change, instance numbers under the lock that orders the lines'],
     ),
     'C17': dict(
         tv=dict(module='CharMapTrace', cfg='CharMapTrace.cfg'),
@@ -657,7 +657,7 @@ for _k, _v in _ADDED5.items():
 
 # sixth session: specification -> code replay (spec/*Gen.tla), slice-heap model
 _ADDED6 = {
-    'C11': 'Specification -> code: ScannerGen.tla runs the abstract Scanner with a history variable; TLC prints the history of every transition of its complete state graph (contents up to 4 / 6 over {x, LF, CR}; VIEW hides the history) and random behaviours of depth 40 (-simulate, seeded), each step with the observation the model predicts; verifdrv steps the real scanner through them and ScannerTrace / Held.ExpFails reject a step the implementation does not follow.',
+    'C11': 'Specification -> code: ScannerGen.tla runs the abstract Scanner with a history variable; TLC prints the history of every transition of its complete state graph (contents up to 4 / 6 over {x, LF, CR}; VIEW hides the history) and random behaviours of depth 40 (-simulate, seeded), each step with the observation the model predicts; verifdrv steps the real scanner through them and ScannerTrace / Held.ExpFails reject a step the implementation does not follow. Code -> specification from inside the library: a guarded call-tracing hook (StringScanner.verifEvent) logs every state-changing call of every scanner while the repository\'s own test-suite (built with the tag) and the tokenizers driven by the C13 / C09 drivers run; the lines are grouped by scanner instance and validated by ScannerTrace.',
     'C17': 'Specification -> code: CharMapGen.tla explores the graph of distinct map VALUES (the function probe -> reference is the VIEW) reachable within 2 / 3 registrations and prints the history of every operation from every such value, with the predicted look-ups, for the map itself, a tokenizer\'s state table (thorough) and the word class; plus random histories of 12 registrations.',
     'C16': 'Specification -> code: SymbolTrieGen.tla explores (symbol table, input, cursor) for up to two registrations of symbols over {a,b}, each under one of two types, with inputs attached at any time, and prints the history of every registration and every read with the predicted type, text and cursor; plus random behaviours of depth 30 with up to 8 symbols.',
     'C18': 'Specification -> code (clause b): CollectionsGen.tla explores every list of up to 3 / 4 entries over {a, A, b} (identities up to renaming are the VIEW) and prints the history of every operation - queries included - from every list, with the predicted list and result, for variable and function collections; plus random behaviours of depth 40.',
